@@ -467,6 +467,7 @@ func (g *c6gen) patternSection(m *c6stmt, r *gen.Rng) {
 func (g *c6gen) module() *c6stmt {
 	r := g.r
 	pr := *g.r // the pattern section draws from a stream of its own: the rest of the module is as before
+	rr := *g.r // and so does the order of the revisions
 	m := &c6stmt{kw: "module", arg: "m", raw: true}
 	m.add("yang-version", "1.1", true)
 	m.add("namespace", "urn:"+c6word(r), false)
@@ -484,6 +485,7 @@ func (g *c6gen) module() *c6stmt {
 		m.add("reference", c6word(r), false)
 	}
 	year := 2024
+	var revs []*c6stmt
 	for n := r.Intn(4); n > 0; n-- {
 		rv := m.add("revision", fmt.Sprintf("%d-0%d-1%d", year, 1+r.Intn(9), r.Intn(10)), true)
 		year -= 1 + r.Intn(3)
@@ -493,6 +495,12 @@ func (g *c6gen) module() *c6stmt {
 		if r.Chance(1, 3) {
 			rv.add("reference", c6word(r), false)
 		}
+		revs = append(revs, rv)
+	}
+	// the dates in any order (newest first is a SHOULD of RFC 7950 7.1.9), drawn from a stream of its own
+	for i, sr := len(revs)-1, rr.Fork(0x726576); i > 0; i-- {
+		j := sr.Intn(i + 1)
+		revs[i].arg, revs[j].arg = revs[j].arg, revs[i].arg
 	}
 	e := m.add("extension", "e", true)
 	ea := e.add("argument", "a", true)
@@ -1084,6 +1092,29 @@ func c06Statements(ctx *core.Ctx, r *gen.Rng) {
 		ctx.Add(emit.App("CDet", emit.Nat(len(dumps)), emit.Bool(eq)),
 			map[string]interface{}{"kind": "determinism", "module_index": i, "loads": len(dumps), "all_equal": eq, "module": text}, true)
 		ctx.Count("D:modules")
+		// reading does not change what is read: the revision accessors in a random sequence, then every
+		// exported accessor of every reachable object, then the whole tree once more
+		var written []g6cell
+		for _, rv := range tree.find("revision") {
+			c := g6cell{rv.arg, "", ""}
+			for _, x := range rv.find("description") {
+				c[1] = x.arg
+			}
+			for _, x := range rv.find("reference") {
+				c[2] = x.arg
+			}
+			written = append(written, c)
+		}
+		c6revCalls(ctx, r.Fork(uint64(i)^0x726576), first, written, i, text)
+		calls := c6sweep(first)
+		again := c6dumpOf(tree, first)
+		sd := map[string]interface{}{"kind": "accessor-sweep", "module_index": i, "accessor_calls": calls, "same": again == dumps[0]}
+		if again != dumps[0] {
+			sd["module"] = text
+			sd["first_difference"] = c6firstDiff(dumps[0], again)
+		}
+		ctx.Add(emit.App("CSweep", emit.Nat(calls), emit.Bool(again == dumps[0])), sd, true)
+		ctx.Count("D:accessor-sweep")
 		// successive loads of different texts in one process: the schema compiled from the previous text is
 		// still what it was, and the previous text loaded again still gives the same schema
 		if prev != nil {
